@@ -212,19 +212,175 @@ def showEx : Except Nat Nat → String
   | .ok i => "Ok(" ++ toString i ++ ")"
   | .error i => "Err(" ++ toString i ++ ")"
 
-/-! ### the step function -/
+/-! ### the step function
+
+The manager is taken out of the driver state before an operation runs and put back afterwards, and
+handle tables are pushed to only while nothing else refers to them: the big arrays are then uniquely
+referenced and updated in place (a 2^20-cell table would otherwise be copied by every operation). -/
+
+def hOf (env : Array Ref) (t : String) : Option Ref := t.toNat?.bind (fun i => env[i]?)
+def hsOf (env : Array Ref) (ts : List String) : Option (List Ref) := ts.mapM (hOf env)
+
+/-- put the manager back, nothing else changed -/
+def keep (d : DState) (s : St) (out : String) : DState × String := ({ d with st := some s }, out)
+
+/-- bind the result of a handle-producing operation (on a panic the name is bound to the constant
+false, as the harness does) -/
+def pushRes (d : DState) (x : Res (St × Ref)) : DState × String :=
+  match x with
+  | .ok (s', r) =>
+    let abs := d.abs
+    let env := d.env
+    let d := { d with env := #[] }
+    let env := env.push r
+    let out := "r " ++ showHandle abs s' env r
+    ({ d with st := some s', env := env }, out)
+  | .error (e, s') =>
+    let env := d.env
+    let d := { d with env := #[] }
+    ({ d with st := some s', env := env.push Ref.zero }, "panic " ++ e.toString)
+
+/-- operations on the manager `s`; `d.st` is `none` while this runs -/
+def stepMgr (d : DState) (s : St) (toks : List String) : DState × String :=
+  match toks with
+  | ["var", v] => match v.toNat? with | some v => pushRes d (mkVar s v) | none => keep d s "bad-op"
+  | ["node", v, lo, hi] =>
+    match v.toNat?, hOf d.env lo, hOf d.env hi with
+    | some v, some lo, some hi => pushRes d (mkNode s v lo hi)
+    | _, _, _ => keep d s "bad-op"
+  | ["not", a] => match hOf d.env a with | some a => pushRes d (.ok (s, a.not)) | none => keep d s "bad-op"
+  | ["ite", a, b, c] =>
+    match hOf d.env a, hOf d.env b, hOf d.env c with
+    | some a, some b, some c => pushRes d (applyIte FUEL s a b c)
+    | _, _, _ => keep d s "bad-op"
+  | ["and", a, b] => match hOf d.env a, hOf d.env b with | some a, some b => pushRes d (applyAnd FUEL s a b) | _, _ => keep d s "bad-op"
+  | ["or", a, b] => match hOf d.env a, hOf d.env b with | some a, some b => pushRes d (applyOr FUEL s a b) | _, _ => keep d s "bad-op"
+  | ["xor", a, b] => match hOf d.env a, hOf d.env b with | some a, some b => pushRes d (applyXor FUEL s a b) | _, _ => keep d s "bad-op"
+  | ["eq", a, b] => match hOf d.env a, hOf d.env b with | some a, some b => pushRes d (applyEq FUEL s a b) | _, _ => keep d s "bad-op"
+  | ["imply", a, b] => match hOf d.env a, hOf d.env b with | some a, some b => pushRes d (applyImply FUEL s a b) | _, _ => keep d s "bad-op"
+  | "andmany" :: rs => match hsOf d.env rs with | some rs => pushRes d (andMany FUEL s Ref.one rs) | none => keep d s "bad-op"
+  | "ormany" :: rs => match hsOf d.env rs with | some rs => pushRes d (orMany FUEL s Ref.zero rs) | none => keep d s "bad-op"
+  | "cube" :: lits =>
+    match lits.mapM String.toInt? with
+    | some ls => pushRes d (cube s (ls.map litOfInt))
+    | none => keep d s "bad-op"
+  | "clause" :: lits =>
+    match lits.mapM String.toInt? with
+    | some ls => pushRes d (clause s (ls.map litOfInt))
+    | none => keep d s "bad-op"
+  | ["subst", f, v, b] =>
+    match hOf d.env f, v.toNat? with
+    | some f, some v =>
+      pushRes d (match substitute FUEL s f v (b == "1") [] with
+        | .ok (s', r, _) => .ok (s', r) | .error e => .error e)
+    | _, _ => keep d s "bad-op"
+  | "substm" :: f :: lits =>
+    match hOf d.env f, lits.mapM String.toInt? with
+    | some f, some ls =>
+      pushRes d (match substMulti FUEL s f (ls.map litOfInt) [] with
+        | .ok (s', r, _) => .ok (s', r) | .error e => .error e)
+    | _, _ => keep d s "bad-op"
+  | "cofcube" :: f :: lits =>
+    match hOf d.env f, lits.mapM String.toInt? with
+    | some f, some ls =>
+      pushRes d (match cofCube FUEL s f (ls.map litOfInt) [] with
+        | .ok (s', r, _) => .ok (s', r) | .error e => .error e)
+    | _, _ => keep d s "bad-op"
+  | ["compose", f, v, g] =>
+    match hOf d.env f, v.toNat?, hOf d.env g with
+    | some f, some v, some g => pushRes d (composeTop FUEL s f v g)
+    | _, _, _ => keep d s "bad-op"
+  | ["constrain", f, g] => match hOf d.env f, hOf d.env g with | some f, some g => pushRes d (constrain FUEL s f g) | _, _ => keep d s "bad-op"
+  | ["restrict", f, g] => match hOf d.env f, hOf d.env g with | some f, some g => pushRes d (restrict FUEL s f g) | _, _ => keep d s "bad-op"
+  | "exprc" :: _ :: ts | "expr" :: ts =>
+    match ts.mapM (parseTok d.env) with
+    | some tl =>
+      match parseRust tl with
+      | some pv => pushRes d (pv.eval FUEL s)
+      | none => keep d s "bad-op"
+    | none => keep d s "bad-op"
+  | ["low", f] => match hOf d.env f with | some f => pushRes d (.ok (s, s.lowNode f)) | none => keep d s "bad-op"
+  | ["high", f] => match hOf d.env f with | some f => pushRes d (.ok (s, s.highNode f)) | none => keep d s "bad-op"
+  | ["topcof", f, v] =>
+    match hOf d.env f, v.toNat? with
+    | some f, some v =>
+      match topCofactors s f v with
+      | .ok (a, b) =>
+        let abs := d.abs
+        let env := d.env
+        let d := { d with env := #[] }
+        let env1 := env.push a
+        let o1 := showHandle abs s env1 a
+        let env2 := env1.push b
+        let o2 := showHandle abs s env2 b
+        ({ d with st := some s, env := env2 }, "r " ++ o1 ++ " " ++ o2)
+      | .error e =>
+        let env := d.env
+        let d := { d with env := #[] }
+        ({ d with st := some s, env := (env.push Ref.zero).push Ref.zero }, "panic " ++ e.toString)
+    | _, _ => keep d s "bad-op"
+  | ["itec", a, b, c] =>
+    match hOf d.env a, hOf d.env b, hOf d.env c with
+    | some a, some b, some c =>
+      match iteConstant FUEL s a b c with
+      | .ok (s', o) => ({ d with st := some s' },
+          match o with | some true => "some1" | some false => "some0" | none => "none")
+      | .error (e, s') => ({ d with st := some s' }, "panic " ++ e.toString)
+    | _, _, _ => keep d s "bad-op"
+  | ["implies", a, b] =>
+    match hOf d.env a, hOf d.env b with
+    | some a, some b =>
+      match isImplies FUEL s a b with
+      | .ok (s', o) => ({ d with st := some s' }, boolS o)
+      | .error (e, s') => ({ d with st := some s' }, "panic " ++ e.toString)
+    | _, _ => keep d s "bad-op"
+  | ["satcount", f, n] =>
+    match hOf d.env f, n.toNat? with
+    | some f, some n =>
+      keep d s (match satCount FUEL s f n with | .ok c => toString c | .error e => "panic " ++ e.toString)
+    | _, _ => keep d s "bad-op"
+  | ["onesat", f] =>
+    match hOf d.env f with
+    | some f => keep d s (match oneSat FUEL s f [] with | some p => showIntList p | none => "None")
+    | none => keep d s "bad-op"
+  | ["paths", f] =>
+    match hOf d.env f with
+    | some f => keep d s (match paths FUEL s f with
+        | some ps => "[" ++ ", ".intercalate (ps.map showIntList) ++ "]" | none => "panic fuel")
+    | none => keep d s "bad-op"
+  | ["size", f] =>
+    match hOf d.env f with
+    | some f => let p := size s f; ({ d with st := some p.1 }, toString p.2)
+    | none => keep d s "bad-op"
+  | "desc" :: rs =>
+    match hsOf d.env rs with
+    | some rs => keep d s (if d.abs then toString (descendants s rs).length else showNatList (sortNat (descendants s rs)))
+    | none => keep d s "bad-op"
+  | "gc" :: rs =>
+    match hsOf d.env rs with
+    | some rs =>
+      match collectGarbage s rs with
+      | .ok s' => ({ d with st := some s' }, "ok")
+      | .error (e, s') => ({ d with st := some s' }, "panic " ++ e.toString)
+    | none => keep d s "bad-op"
+  | ["bracket", f] =>
+    match hOf d.env f with
+    | some f => keep d s (if d.abs then (canonRef 100000 s f []).1 else toBracketString FUEL s f)
+    | none => keep d s "bad-op"
+  | "dot" :: rs =>
+    match hsOf d.env rs with
+    | some rs => keep d s (match renderDot s rs with
+        | .ok ls => if d.abs then "dot " ++ toString ((descendants s rs).length) else "\\n".intercalate ls
+        | .error e => "panic " ++ e.toString)
+    | none => keep d s "bad-op"
+  | ["dump"] => keep d s (if d.abs then "-" else stSnapshot s)
+  | ["digest"] => keep d s (if d.abs then "-" else toString (fnv1a (stSnapshot s)).toNat)
+  | _ => keep d s "bad-op"
+
 
 def step (d : DState) (line : String) : DState × String :=
   let toks := (line.trimAscii.toString.splitOn " ").filter (· ≠ "")
-  let H (t : String) : Option Ref := t.toNat?.bind (fun i => d.env[i]?)
-  let Hs (ts : List String) : Option (List Ref) := ts.mapM H
   let bad : DState × String := (d, "bad-op")
-  let pushRes (s : St) (x : Res (St × Ref)) : DState × String :=
-    match x with
-    | .ok (s', r) => ({ d with st := some s', env := d.env.push r }, "r " ++ showHandle d.abs s' (d.env.push r) r)
-    | .error (e, s') => ({ d with st := some s', env := d.env.push Ref.zero }, "panic " ++ e.toString)
-    -- (on a panic the harness binds the name to the constant false, like the driver)
-  let _ := s!"{bad.2}"
   match toks with
   | ["mode", m] => ({ d with abs := m == "abstract" }, "ok")
   | "vmap" :: _ :: _ => (d, "ok")   -- harness-side oracle configuration; no effect on the model
@@ -379,134 +535,10 @@ def step (d : DState) (line : String) : DState × String :=
   | ["raw.len"] => (d, toString d.raw.len)
   | ["raw.dump"] => (d, rawSnapshot d.raw)
   | _ =>
-  -- everything below needs a manager
+  -- everything else needs a manager
   match d.st with
   | none => (d, "no-manager")
-  | some s =>
-  match toks with
-  | ["var", v] => match v.toNat? with | some v => pushRes s (mkVar s v) | none => bad
-  | ["node", v, lo, hi] =>
-    match v.toNat?, H lo, H hi with
-    | some v, some lo, some hi => pushRes s (mkNode s v lo hi)
-    | _, _, _ => bad
-  | ["not", a] => match H a with | some a => pushRes s (.ok (s, a.not)) | none => bad
-  | ["ite", a, b, c] =>
-    match H a, H b, H c with
-    | some a, some b, some c => pushRes s (applyIte FUEL s a b c)
-    | _, _, _ => bad
-  | ["and", a, b] => match H a, H b with | some a, some b => pushRes s (applyAnd FUEL s a b) | _, _ => bad
-  | ["or", a, b] => match H a, H b with | some a, some b => pushRes s (applyOr FUEL s a b) | _, _ => bad
-  | ["xor", a, b] => match H a, H b with | some a, some b => pushRes s (applyXor FUEL s a b) | _, _ => bad
-  | ["eq", a, b] => match H a, H b with | some a, some b => pushRes s (applyEq FUEL s a b) | _, _ => bad
-  | ["imply", a, b] => match H a, H b with | some a, some b => pushRes s (applyImply FUEL s a b) | _, _ => bad
-  | "andmany" :: rs => match Hs rs with | some rs => pushRes s (andMany FUEL s Ref.one rs) | none => bad
-  | "ormany" :: rs => match Hs rs with | some rs => pushRes s (orMany FUEL s Ref.zero rs) | none => bad
-  | "cube" :: lits =>
-    match lits.mapM String.toInt? with
-    | some ls => pushRes s (cube s (ls.map litOfInt))
-    | none => bad
-  | "clause" :: lits =>
-    match lits.mapM String.toInt? with
-    | some ls => pushRes s (clause s (ls.map litOfInt))
-    | none => bad
-  | ["subst", f, v, b] =>
-    match H f, v.toNat? with
-    | some f, some v =>
-      pushRes s (match substitute FUEL s f v (b == "1") [] with
-        | .ok (s', r, _) => .ok (s', r) | .error e => .error e)
-    | _, _ => bad
-  | "substm" :: f :: lits =>
-    match H f, lits.mapM String.toInt? with
-    | some f, some ls =>
-      pushRes s (match substMulti FUEL s f (ls.map litOfInt) [] with
-        | .ok (s', r, _) => .ok (s', r) | .error e => .error e)
-    | _, _ => bad
-  | "cofcube" :: f :: lits =>
-    match H f, lits.mapM String.toInt? with
-    | some f, some ls =>
-      pushRes s (match cofCube FUEL s f (ls.map litOfInt) [] with
-        | .ok (s', r, _) => .ok (s', r) | .error e => .error e)
-    | _, _ => bad
-  | ["compose", f, v, g] =>
-    match H f, v.toNat?, H g with
-    | some f, some v, some g => pushRes s (composeTop FUEL s f v g)
-    | _, _, _ => bad
-  | ["constrain", f, g] => match H f, H g with | some f, some g => pushRes s (constrain FUEL s f g) | _, _ => bad
-  | ["restrict", f, g] => match H f, H g with | some f, some g => pushRes s (restrict FUEL s f g) | _, _ => bad
-  | "exprc" :: _ :: ts | "expr" :: ts =>
-    match ts.mapM (parseTok d.env) with
-    | some tl =>
-      match parseRust tl with
-      | some pv => pushRes s (pv.eval FUEL s)
-      | none => bad
-    | none => bad
-  | ["low", f] => match H f with | some f => pushRes s (.ok (s, s.lowNode f)) | none => bad
-  | ["high", f] => match H f with | some f => pushRes s (.ok (s, s.highNode f)) | none => bad
-  | ["topcof", f, v] =>
-    match H f, v.toNat? with
-    | some f, some v =>
-      match topCofactors s f v with
-      | .ok (a, b) => ({ d with env := (d.env.push a).push b },
-          "r " ++ showHandle d.abs s (d.env.push a) a ++ " " ++ showHandle d.abs s ((d.env.push a).push b) b)
-      | .error e => ({ d with env := (d.env.push Ref.zero).push Ref.zero }, "panic " ++ e.toString)
-    | _, _ => bad
-  | ["itec", a, b, c] =>
-    match H a, H b, H c with
-    | some a, some b, some c =>
-      match iteConstant FUEL s a b c with
-      | .ok (s', o) => ({ d with st := some s' },
-          match o with | some true => "some1" | some false => "some0" | none => "none")
-      | .error (e, s') => ({ d with st := some s' }, "panic " ++ e.toString)
-    | _, _, _ => bad
-  | ["implies", a, b] =>
-    match H a, H b with
-    | some a, some b =>
-      match isImplies FUEL s a b with
-      | .ok (s', o) => ({ d with st := some s' }, boolS o)
-      | .error (e, s') => ({ d with st := some s' }, "panic " ++ e.toString)
-    | _, _ => bad
-  | ["satcount", f, n] =>
-    match H f, n.toNat? with
-    | some f, some n =>
-      (d, match satCount FUEL s f n with | .ok c => toString c | .error e => "panic " ++ e.toString)
-    | _, _ => bad
-  | ["onesat", f] =>
-    match H f with
-    | some f => (d, match oneSat FUEL s f [] with | some p => showIntList p | none => "None")
-    | none => bad
-  | ["paths", f] =>
-    match H f with
-    | some f => (d, match paths FUEL s f with
-        | some ps => "[" ++ ", ".intercalate (ps.map showIntList) ++ "]" | none => "panic fuel")
-    | none => bad
-  | ["size", f] =>
-    match H f with
-    | some f => let p := size s f; ({ d with st := some p.1 }, toString p.2)
-    | none => bad
-  | "desc" :: rs =>
-    match Hs rs with
-    | some rs => (d, if d.abs then toString (descendants s rs).length else showNatList (sortNat (descendants s rs)))
-    | none => bad
-  | "gc" :: rs =>
-    match Hs rs with
-    | some rs =>
-      match collectGarbage s rs with
-      | .ok s' => ({ d with st := some s' }, "ok")
-      | .error (e, s') => ({ d with st := some s' }, "panic " ++ e.toString)
-    | none => bad
-  | ["bracket", f] =>
-    match H f with
-    | some f => (d, if d.abs then (canonRef 100000 s f []).1 else toBracketString FUEL s f)
-    | none => bad
-  | "dot" :: rs =>
-    match Hs rs with
-    | some rs => (d, match renderDot s rs with
-        | .ok ls => if d.abs then "dot " ++ toString ((descendants s rs).length) else "\\n".intercalate ls
-        | .error e => "panic " ++ e.toString)
-    | none => bad
-  | ["dump"] => (d, if d.abs then "-" else stSnapshot s)
-  | ["digest"] => (d, if d.abs then "-" else toString (fnv1a (stSnapshot s)).toNat)
-  | _ => bad
+  | some s => stepMgr { d with st := none } s toks
 
 partial def loop (hin : IO.FS.Stream) (hout : IO.FS.Stream) (d : DState) : IO Unit := do
   let line ← hin.getLine
